@@ -374,7 +374,10 @@ func genSmallVal(r *Rng) []byte {
 }
 
 func genPRL(r *Rng) []byte {
-	pool := []byte{1, 3, 15, 6, 6, 1, 42, 51, 66, 67, 119, 121, 252, 0, 255}
+	pool := []byte{1, 3, 15, 6, 6, 1, 42, 51, 66, 67, 119, 121, 252, 0, 255,
+		// the builders' defaults moved by 8, 16, 32, 64 and 128: codes that share a
+		// slot with a default in any power-of-two sized table
+		9, 11, 23, 14, 17, 19, 31, 22, 33, 35, 47, 38, 65, 79, 70, 129, 131, 143, 134}
 	n := r.Range(0, 6)
 	out := make([]byte, n)
 	for i := range out {
@@ -448,6 +451,12 @@ func genBuildPkt(r *Rng, small bool) (*dhcpv4.DHCPv4, []string) {
 			switch code {
 			case 54, 50:
 				v = r.Bytes(4)
+				if r.Chance(1, 5) {
+					// addresses that mean something: all zeros, all ones, the packet's own
+					// siaddr / yiaddr (seeded change C15-18: a zero server identifier
+					// replaced by siaddr)
+					v = [][]byte{{0, 0, 0, 0}, {255, 255, 255, 255}, append([]byte{}, p.ServerIPAddr.To4()...), append([]byte{}, p.YourIPAddr.To4()...)}[r.Intn(4)]
+				}
 				if r.Chance(1, 8) {
 					v = r.Bytes(r.Range(1, 6))
 				}
